@@ -262,6 +262,10 @@ func init() {
 		sc.ClientScripts = [][]Op{sends('c', k, p.int("size", -1))}
 		sc.ServerScripts = [][]Op{recvs(k)}
 		lateApps(sc, p)
+		if p.has("win") {
+			// judged on the window as well (C09)
+			sc.Monitors = append(sc.Monitors, monWindow)
+		}
 		return sc
 	}
 	// bidi: both directions at once, separate sender and receiver threads.
